@@ -721,7 +721,7 @@ func (e *Env) call(n *Node, hint *Sym) *Sym {
 	case "istypednil":
 		// istypednil(x): the interface value x holds a nil pointer (of whatever pointer type)
 		v := e.eval(n.Args[0], nil).term()
-		return scalar(types.Typ[types.Bool], mkAnd(app(SBool, "<=", v, mkInt64(-3000000)), app(SBool, ">", v, mkInt64(-4000000))))
+		return scalar(types.Typ[types.Bool], app(SBool, "isTN", v))
 	case "unbox":
 		// unbox(x, "T"): the value of (non-pointer, scalar) type T held by the interface value x
 		v := e.eval(n.Args[0], nil)
